@@ -431,3 +431,16 @@ def random_history(cfgname, seed, steps, bias=0.5, max_leaves=400):
         h.append((r, ax))
         m.refine_axis(find_leaf(m, r), ax)
     return tuple(h)
+
+
+def uniform_history(cfgname, k_space, k_time=0):
+    """History of k_space rounds of uniform space bisection followed by k_time rounds of uniform time bisection."""
+    cfg = CFGS[cfgname]
+    m = fresh(cfg)
+    h = []
+    for ax, k in ((1, k_space), (0, k_time)):
+        for _ in range(k):
+            for e in sorted(list(m.leaf_elements), key=lambda e: (e.levels[ax], rect_of(e))):
+                h.append((rect_of(e), ax))
+                m.refine_axis(e, ax)
+    return tuple(h)
